@@ -3,10 +3,14 @@
 package httpgrpc
 
 import (
+	"context"
 	"fmt"
 	"net/http"
 
 	"google.golang.org/grpc/codes"
+	"google.golang.org/grpc/status"
+
+	"github.com/fullstorydev/grpchan/internal/zzfix"
 
 	zv "github.com/fullstorydev/grpchan/internal/zzverif"
 )
@@ -97,5 +101,61 @@ func Verif_C14_HeaderRoundTrip() {
 		zv.Observe("roundtrip", code, uint32(stat.Code()), stat.Message())
 		zv.Assert(uint32(stat.Code()) == uint32(code), "header-code-recovered-exactly")
 		zv.Assert(stat.Message() == msg, "header-message-recovered")
+	}
+}
+
+// Verif_C14_Renderer: a unary handler returns an arbitrary non-OK code (all 2^32
+// values) through the real handleMethod and DefaultErrorRenderer; the HTTP request
+// context is cancelled or not, and independently the RPC context derived from a
+// GRPC-Timeout header has expired or not. The HTTP status is 499 exactly when the
+// code is Canceled/DeadlineExceeded AND the request itself was cancelled,
+// otherwise the documented table entry; the caller recovers the exact code.
+func Verif_C14_Renderer() {
+	code := codes.Code(zv.Uint32("code"))
+	zv.Assume(code != codes.OK)
+	reqCancelled := zv.Bool("request-context-cancelled")
+	rpcExpired := zv.Bool("rpc-timeout-expired")
+	hooks := &verifHooks{}
+	rctx, rcancel := context.WithCancel(context.Background())
+	defer rcancel()
+	hooks.Unary = func(tag string, ctx context.Context, req *verifMsg) (*verifMsg, error) {
+		if rpcExpired {
+			<-ctx.Done() // the deadline from GRPC-Timeout passes while the handler runs
+		}
+		if reqCancelled {
+			rcancel() // the client goes away before the handler returns
+		}
+		return nil, status.Error(code, "m")
+	}
+	d := zzfix.Desc("a")
+	h := HandleMethod(&zzfix.Srv{Name: "a", Hooks: hooks}, "a", &d.Methods[0], nil)
+	hdr := http.Header{"Content-Type": {UnaryRpcContentType_V1}}
+	if rpcExpired {
+		hdr.Set("GRPC-Timeout", "5m")
+	}
+	req := (&http.Request{Method: "POST", URL: verifURL("http", "h", "/a/U"), Header: hdr, Body: &verifBody{}}).WithContext(rctx)
+	rec := newVerifRecorder()
+	h(rec, req)
+	if !rec.wroteHeader {
+		rec.WriteHeader(200)
+	}
+	reqDone := zv.Cancelled(rctx)
+	want, listed := verifDocLookup(code)
+	if !listed {
+		want = http.StatusInternalServerError
+	}
+	if (code == codes.Canceled || code == codes.DeadlineExceeded) && reqDone {
+		want = 499
+	}
+	zv.Reach("rendered")
+	zv.Observe("rendered", uint32(code), reqDone, rpcExpired, rec.code)
+	zv.Assert(rec.code == want, "http-status-follows-documented-table-and-499-rule")
+	zv.Assert(rec.code >= 400, "non-ok-code-gives-error-status")
+	// and the caller recovers the exact code
+	reply := &http.Response{StatusCode: rec.code, Status: "x", Header: rec.sent}
+	stat := statFromResponse(reply)
+	zv.Assert(stat != nil, "caller-sees-an-error")
+	if stat != nil {
+		zv.Assert(stat.Code() == code, "caller-recovers-exact-code")
 	}
 }
